@@ -49,6 +49,11 @@ def gen(rng, tier, index):
         r = rng.random()
         kind = "good" if r < 0.75 else "short" if r < 0.85 else "malformed" if r < 0.93 else "empty"
         inputs.append({"stem": s, "kind": kind, "nseq": rng.randint(1, 4), "len": rng.choice([6, 12, 30])})
+    if len(inputs) > 1 and rng.random() < 0.25:
+        # inputs with identical content under different identifiers
+        for _ in range(rng.randint(1, 2)):
+            i, j = sorted(rng.sample(range(len(inputs)), 2))
+            inputs[j] = {**inputs[i], "stem": inputs[j]["stem"], "same_as": inputs[i].get("same_as", inputs[i]["stem"])}
     n_steps = rng.randint(0, 3)
     steps = []
     for k in range(n_steps):
@@ -114,7 +119,7 @@ def gen(rng, tier, index):
 def _input_text(inp):
     import random
 
-    r = random.Random(f"{inp['stem']}|{inp['nseq']}|{inp['len']}")
+    r = random.Random(f"{inp.get('same_as') or inp['stem']}|{inp['nseq']}|{inp['len']}")
     if inp["kind"] == "malformed":
         return "this is not\nfasta at all\n"
     if inp["kind"] == "empty":
@@ -573,6 +578,8 @@ def run(plan, tier="quick", real_pool=False) -> RunResult:
     res.sim_time = pool.time
     if pool.reordered:
         res.probe("delivery-reordered")
+    if any(i.get("same_as") for i in plan["inputs"]):
+        res.probe("inputs-with-identical-content")
     if any(st.get("func") for st in plan["steps"]):
         res.probe("function-based-step-with-mutable-arguments")
     if any(n > 1 for n in pool.done_sizes):
@@ -656,6 +663,6 @@ EVIDENCE = {
         "the source field of a failure caused by a wrong-typed intermediate value is not asserted (such a value carries no source)",
     ],
     "expected_probes": ["delivery-reordered", "several-finished-at-once", "outcome:ERROR", "outcome:BUG",
-                        "outcome:FALSE", "outcome:completed", "function-based-step-with-mutable-arguments", "writer:tabular", "writer:db", "writer:json", "writer:seqs"],
+                        "outcome:FALSE", "outcome:completed", "function-based-step-with-mutable-arguments", "inputs-with-identical-content", "writer:tabular", "writer:db", "writer:json", "writer:seqs"],
     "explanation": "C14 runs real apply_to/as_completed on a simulated pool and compares the store with per-input references.",
 }
